@@ -553,8 +553,11 @@ class Interp:
             del lst[self.handle(tgt)]
         elif by == "id":
             del lst[tgt.id]
-        elif by == "name":
+        elif by == "name" and sum(1 for x in cur if x.name == tgt.name) == 1:
             del lst[tgt.name]
+        elif by == "name":
+            # several members of that name (sources of different tree levels): the name does not say which
+            del lst[tgt.id]
         else:
             # position inside the list: ask the real list where the target is (re-appends may
             # keep or move an entry - both accepted, see DESIGN 3.7)
